@@ -2,6 +2,8 @@
 
 from __future__ import annotations
 
+from ..vloop import texc
+
 import itertools
 from typing import Any
 
@@ -34,7 +36,7 @@ def run_write(pop: tuple[tuple[str, bool, str], ...]) -> tuple[list[tuple[str, s
         w.loop.run_until(w.loop.time() + 60)
         if not t.done():
             return [("procedure-hangs", f"nm_individual_address_write not finished after 60 s; population={devs}")], "hang"
-        exc = t.exception()
+        exc = texc(t)
         outcome = "ok" if exc is None else type(exc).__name__
         if exc is not None and not isinstance(exc, XKNXException):
             viols.append((exc_sig("procedure-escape", exc), f"{exc!r}; population={pop}"))
@@ -102,7 +104,7 @@ def run_serial(case: tuple[Any, ...]) -> tuple[list[tuple[str, str]], str]:
         w.loop.run_until(w.loop.time() + 30)
         if not t.done():
             return [("serial-procedure-hangs", f"{case}")], "hang"
-        exc = t.exception()
+        exc = texc(t)
         outcome = "ok" if exc is None else type(exc).__name__
         owners = [d for d in devs if d.serial == want_serial]
         ctxs = f"op={op} devices={[(d.serial.hex(), before[d.name]) for d in devs]} requested={want_serial.hex()} stray={stray} outcome={outcome} result={t.result() if exc is None else exc!r} after={[str(d.address) for d in devs]}"
@@ -135,8 +137,8 @@ def run_authorize(free: int, client: int) -> list[tuple[str, str]]:
 
         t = w.spawn(user(), name="harness-user")
         w.loop.run_until(w.loop.time() + 60)
-        if not t.done() or t.exception() is not None:
-            return [("authorize-fails", f"free={free} client={client}: {t.exception() if t.done() else 'hangs'!r}")]
+        if not t.done() or texc(t) is not None:
+            return [("authorize-fails", f"free={free} client={client}: {texc(t) if t.done() else 'hangs'!r}")]
         if res["level"] != min(free, client):
             viols.append(("authorize2-does-not-return-the-better-level", f"free={free} client={client}: returned {res['level']}"))
         if res["device_level_then"] != res["level"]:
